@@ -558,5 +558,5 @@ MUTANTS = [
     {'name': 'id counter restored to the highest id (not one past)', 'edits': [('src/recovery.rs', "    db.keyspace_id_counter.set(highest_id + 1);", "    db.keyspace_id_counter.set(highest_id);")]},
     {'name': 'replay applies unresolvable ids to the first keyspace', 'edits': [('src/db.rs', "                        let Some(keyspace_name) = db.meta_keyspace.resolve_id(item.keyspace_id)?\n                        else {\n                            continue;\n                        };", "                        let keyspace_name = match db.meta_keyspace.resolve_id(item.keyspace_id)? {\n                            Some(n) => n,\n                            None => match keyspaces.keys().next() { Some(n) => n.clone(), None => continue },\n                        };")]},
     {'name': 'remove_keyspace keeps the id->name mapping', 'edits': [('src/meta_keyspace.rs', "            key.push(b'n');\n            key.extend(keyspace.id.to_be_bytes());\n            ingestion.write_tombstone(key)?;", "            key.push(b'n');\n            key.extend(keyspace.id.to_be_bytes());\n            let _ = key;")]},
-    {'name': 'batch commit journals items under the first item\'s keyspace id', 'edits': [('src/journal/writer.rs', "                item.keyspace.id,", "                items[0].keyspace.id,")]},
+    {'name': 'insert journals its record under the next keyspace id', 'edits': [('src/keyspace/mod.rs', "            .write_raw(self.id, &key, &value, lsm_tree::ValueType::Value, seqno)", "            .write_raw(self.id + 1, &key, &value, lsm_tree::ValueType::Value, seqno)")]},
 ]
